@@ -19,7 +19,7 @@ import (
 
 func TestMain(m *testing.M) {
 	document.SetGlobalLevel(document.LogLevelSilent)
-	kit.TestMain(m, 500, 6000)
+	kit.TestMain(m, 1000, 12000)
 }
 
 // Case is one history: Ops build a document from scratch (with save/open cycles in between);
